@@ -4,6 +4,7 @@
 
 mod ctx;
 mod p_score;
+mod p_sentence;
 mod sut;
 
 use ctx::Ctx;
@@ -58,6 +59,14 @@ fn main() {
         "C01" => p_score::run_c01(&mut ctx, from, to, tiny),
         "C06" => p_score::run_c06(&mut ctx, from, to, tiny),
         "C14" => p_score::run_c14(&mut ctx, from, to, tiny),
+        "C02x" => p_sentence::run_c02x(&mut ctx, from, to),
+        "C02r" => p_sentence::run_c02r(&mut ctx, from, to),
+        "C03" => p_sentence::run_c03(&mut ctx, from, to),
+        "C03x" => p_sentence::run_c03x(&mut ctx, from, to),
+        "C04" => p_sentence::run_c04(&mut ctx, from, to),
+        "C05x" => p_sentence::run_c05x(&mut ctx, from, to),
+        "C05r" => p_sentence::run_c05r(&mut ctx, from, to),
+        "C05h" => p_sentence::run_c05h(&mut ctx, from, to),
         w => {
             eprintln!("unknown workload {w}");
             std::process::exit(64);
